@@ -171,3 +171,71 @@ def year_lemma_negation(t, yt, m, d, year):
     ok = z3.And(yt == ((year - 2000) & 0xff), z3.UGE(m, 1), z3.ULE(m, 12), z3.UGE(d, 1), z3.ULE(d, 31),
                 z3.And(m == 1, d == 1) == (t < jan2))
     return z3.Not(ok)
+
+
+# ---- LocalDateTime-level contracts (obligations: C06 c06_seconds_roundtrip 'spec' and c06_ldt_to_seconds) ----------
+
+LDT_FOR_EPOCH_SECONDS = '_ZN8ace_time13LocalDateTime15forEpochSecondsEi'
+LDT_TO_EPOCH_SECONDS = '_ZNK8ace_time13LocalDateTime14toEpochSecondsEv'
+
+
+# In the LocalDateTime-level contracts the calendar specification appears as two *uninterpreted* symbols
+# (day count and date validity).  Knowing less about them than the table-driven spec can only make an
+# obligation harder to discharge, never unsound; the C06 lemmas (c06_seconds_roundtrip 'spec',
+# c06_ldt_to_seconds) establish the contracts for the concrete spec, which is one interpretation.
+_BV8 = z3.BitVecSort(8)
+SPEC_DAYS = z3.Function('SPEC_DAYS', _BV8, _BV8, _BV8, z3.BitVecSort(32))
+SPEC_VALID = z3.Function('SPEC_VALID', _BV8, _BV8, _BV8, z3.BoolSort())
+
+
+def _spec_seconds64(yt, m, d, h, mi, s):
+    return (z3.SignExt(32, SPEC_DAYS(yt, m, d)) * 86400 + z3.ZeroExt(56, h) * 3600 + z3.ZeroExt(56, mi) * 60
+            + z3.ZeroExt(56, s))
+
+
+def ldt_for_epoch_seconds(eng, st, args):
+    """LocalDateTime::forEpochSeconds(x), x != sentinel: the unique valid field tuple whose calendar value is x."""
+    x = args[0]
+    if _is_conc(x):
+        return NotImplemented
+    ck = ('ldtfes', x.get_id())
+    hit = st.user.get(ck)
+    if hit is not None:
+        return hit[0]
+    _pre(eng, st, x != z3.BitVecVal(0x80000000, 32), 'LocalDateTime::forEpochSeconds argument is not the sentinel')
+    f = [eng.fresh('ldt_' + n, 8) for n in ('yt', 'm', 'd', 'h', 'mi', 's')]
+    yt, m, d, h, mi, s = f
+    st.pc.append(z3.And(SPEC_VALID(yt, m, d), yt != 0x80, z3.UGE(m, 1), z3.ULE(m, 12), z3.UGE(d, 1), z3.ULE(d, 31),
+                        z3.ULT(h, 24), z3.ULT(mi, 60), z3.ULT(s, 60),
+                        _spec_seconds64(yt, m, d, h, mi, s) == z3.SignExt(32, x)))
+    r = z3.Concat(s, mi, h, d, m, yt)
+    st.user[ck] = (r, x)
+    st.user.setdefault('ldt_fresh', set()).update(v.get_id() for v in f)
+    st.user.setdefault('ldt_keep', []).extend(f)
+    st.user['contracts_used'] = st.user.get('contracts_used', 0) + 1
+    return r
+
+
+def ldt_to_epoch_seconds(eng, st, args):
+    p = args[0]
+    f = [eng.load(st, Ptr(p.obj, p.off + k), 1, 'i', 8) for k in range(6)]
+    if all(_is_conc(v) for v in f):
+        return NotImplemented
+    # only for values produced by the forEpochSeconds contract; anything else runs the real code
+    known = st.user.get('ldt_fresh', ())
+    if not all((not _is_conc(v)) and v.get_id() in known for v in f):
+        return NotImplemented
+    yt, m, d, h, mi, s = [z3.BitVecVal(v, 8) if _is_conc(v) else v for v in f]
+    v64 = _spec_seconds64(yt, m, d, h, mi, s)
+    _pre(eng, st, z3.And(SPEC_VALID(yt, m, d), z3.ULT(h, 24), z3.ULT(mi, 60), z3.ULT(s, 60),
+                         v64 > -(1 << 31), v64 < (1 << 31)),
+         'LocalDateTime::toEpochSeconds on a valid date-time whose value is representable')
+    return z3.Extract(31, 0, v64)
+
+
+LDT = {LDT_FOR_EPOCH_SECONDS: ldt_for_epoch_seconds, LDT_TO_EPOCH_SECONDS: ldt_to_epoch_seconds}
+
+
+def install_ldt(eng):
+    eng.intercepts.update(LDT)
+    return sorted(LDT)
